@@ -8,7 +8,7 @@ def run(ctx):
     modes = drv.QUICK_MODES if ctx.quick else drv.ALL_MODES
     nh = 500 if ctx.quick else 8000
     ctx.rule = ("seeded histories biased to many records per bucket, tombstones first/middle/last, re-insertion, "
-                "1-300 keys (one history per run with 3000, thorough also 20000), writes through sync and async entry points with metadata/raw metadata/time options; "
+                "1-300 keys (one history per run with 3000, thorough also 20000), raw index records with an unusable integrity anywhere in a key's history, writes through sync and async entry points with metadata/raw metadata/time options; "
                 "after the history (and at random intermediate points) list_sync is compared as a multiset with "
                 "the model AND with metadata_sync(key) for every key ever used. distinct = distinct "
                 "(number of live keys, number of tombstoned keys, max records per bucket, tombstone-position "
@@ -41,6 +41,16 @@ def run(ctx):
             k = keys[j] if j < nkeys and rng.random() < 0.8 else rng.choice(keys)
             r = rng.random()
             tomb_first = (k not in nrec and r < 0.15)
+            if rng.random() < 0.06:
+                # a record nobody can use (raw index insert with an integrity that addresses nothing): wherever it lands in
+                # the key's history, lookups and listings must go on as if it were a damaged line
+                steps.append({"mode": m, "unusable": True,
+                              "req": {"op": "index_insert", "cache": cache, "key": k,
+                                      "opts": {"sri": rng.choice(["sha256-AA", "sha512-AAAAA===", "sha1-", "sha256-!!!!"]),
+                                               "time": str(gen.time_value(rng)), "size": 3}}})
+                ctx.count("unusable_records_inserted")
+                nrec[k] = nrec.get(k, 0) + 1
+                continue
             if tomb_first or r < 0.3:
                 steps.append({"mode": m, "req": {"op": "remove", "cache": cache, "key": k}})
                 pattern.setdefault(k, []).append("T")
